@@ -22,6 +22,7 @@ REPO = os.environ.get("VERIF_REPO", "/repo")
 COQ = os.path.join(VERIF, "coq")
 HARNESS = os.path.join(VERIF, "harness")
 NS = "BD"
+FILE_TIMEOUT = int(os.environ.get("VERIF_COQ_FILE_TIMEOUT", "420"))   # seconds per .v file
 
 GOENV = {
     "GOFLAGS": "-mod=mod",
@@ -112,7 +113,8 @@ def coq_make(targets=None, timeout=1500, keep_going=False):
     """Full .vo build (no -vos) of the given targets (default: all)."""
     with Lock():
         gen_coqproject()
-        cmd = ["make", "-j16"]
+        # every single coqc is bounded (a diverging tactic in one file must not hold the build lock for long)
+        cmd = ["make", "-j16", "TIMECMD=timeout %d" % FILE_TIMEOUT]
         if keep_going:
             cmd.append("-k")
         if targets:
